@@ -581,7 +581,7 @@ func checkSigGates(c *core.Ctx) {
 						bad = "recovered from something other than tx.Hash(): " + core.Path(call.Call.Args[0])
 					}
 				}
-			case p == "tx.sender" || p == "*tx.sender":
+			case senderMemo(sfn) != "" && (p == "tx."+senderMemo(sfn) || p == "*tx."+senderMemo(sfn)):
 			case p == "tx.multisig.Multisig":
 			case isZeroAddress(o):
 			default:
@@ -596,7 +596,7 @@ func checkSigGates(c *core.Ctx) {
 		txT := c.Named(core.PkgTx, "Transaction")
 		okW := true
 		nw := 0
-		for _, w := range c.FieldWrites(txT, "sender") {
+		for _, w := range c.FieldWrites(txT, senderMemo(sfn)) {
 			nw++
 			if core.ShortFn(w.Fn) != "(*coreV2/transaction.Transaction).Sender" {
 				okW = false
@@ -686,4 +686,20 @@ func posOfBlock(b *ssa.BasicBlock) token.Pos {
 		}
 	}
 	return token.NoPos
+}
+
+// senderMemo: the per-transaction memo of the recovered sender — the field of the transaction
+// that Sender() itself stores into.
+func senderMemo(sfn *ssa.Function) string {
+	memo := ""
+	for _, b := range sfn.Blocks {
+		for _, in := range b.Instrs {
+			if st, ok := in.(*ssa.Store); ok {
+				if fa, ok := st.Addr.(*ssa.FieldAddr); ok && len(sfn.Params) > 0 && core.Unwrap(fa.X) == ssa.Value(sfn.Params[0]) {
+					memo = fieldNameOf(fa)
+				}
+			}
+		}
+	}
+	return memo
 }
